@@ -101,6 +101,11 @@ Request(s, kind, x, pending) ==
        Mk([s EXCEPT !.nreq = id, !.pend[kind] = IF pending THEN @ \cup {[id |-> id, x |-> x]} ELSE @],
           [NoRe EXCEPT !.out = <<[t |-> kind, req |-> id]>>])
 
+\* the transport refuses the request message (payload cannot be serialised / exceeds the size limit): the id is spent, nothing is
+\* sent, nothing stays pending (so that a later reply bearing that id is a protocol violation), the caller gets the error
+RequestFails(s, why) ==
+  IF ~s.tr THEN Mk(s, [NoRe EXCEPT !.exc = "TransportLost"])
+  ELSE Mk([s EXCEPT !.nreq = @ + 1], [NoRe EXCEPT !.exc = why])
 Call(s, hasProgress) == Request(s, "call", IF hasProgress THEN 1 ELSE 0, TRUE)
 Publish(s, ack) == Request(s, "publish", 0, ack)
 Subscribe(s, h) == Request(s, "subscribe", h, TRUE)
@@ -250,6 +255,7 @@ Next ==
   \/ s.hello /\ Apply(Disconnect(s))
   \/ s.hello /\ s.nreq < MaxReq /\
        \/ \E p \in BOOLEAN : Apply(Call(s, p))
+       \/ \E w \in {"SerializationError", "PayloadExceededError"} : Apply(RequestFails(s, w))
        \/ \E c \in s.pend["call"] : Apply(CancelCall(s, c.id))
        \/ \E a \in BOOLEAN : Apply(Publish(s, a))
        \/ \E h \in Handlers : Apply(Subscribe(s, h))
